@@ -85,6 +85,7 @@ def random_geometry_recipe(rng, kind):
         r["instances"] = [[rng.randrange(3), rng.randrange(4), rng.choice(["identity", "translation", "rigid", "similarity"])] for _ in range(rng.randint(1, 4))]
         r["colors"] = rng.choice([None, "vertex"])
         r["extras"] = rng.choice([[], [], [], ["cloud"], ["empty"], ["cloud", "empty"]])
+        r["naming"] = rng.choice([None, None, "same", "camera"])
     elif kind == "points":
         r["n"] = rng.choice([1, 3, 17])
         r["colors"] = rng.random() < 0.5
@@ -166,6 +167,10 @@ def build_geometry(r, fmt=None):
             parent = nodes[pi % len(nodes)]
             M = mx.make(rr, cls)
             node = f"node{j}"
+            if r.get("naming") == "same" and gi not in used:
+                node = f"geom{gi}"  # a node named like the geometry it carries (what loaders of other formats produce)
+            elif r.get("naming") == "camera" and j == 0:
+                node = "camera_mount"  # a name that merely starts like the scene's camera node
             if gi not in used:
                 sc.add_geometry(geoms[gi], node_name=node, geom_name=f"geom{gi}", parent_node_name=parent if parent != "world" else None, transform=M)
                 used.add(gi)
